@@ -91,8 +91,9 @@ class Interstitial(object):
             # invertible, so just use solve for speed (omega is technically *negative* definite)
             self.bias_solver = lambda omega, b: -solve(-omega, b, assume_a='pos')
         else:
-            # pseudoinverse required:
-            self.bias_solver = lambda omega, b: np.dot(pinv(omega), b)
+            # pseudoinverse required; the null singular values come out as a few times machine precision
+            # relative to the largest one, which the default cutoff (N*eps) does not reliably remove
+            self.bias_solver = lambda omega, b: np.dot(pinv(omega, rtol=1e-11), b)
         # these pieces are needed in order to compute the elastodiffusion tensor
         self.sitegroupops = self.generateSiteGroupOps()  # list of group ops to take first rep. into whole list
         self.jumpgroupops = self.generateJumpGroupOps()  # list of group ops to take first rep. into whole list
